@@ -56,6 +56,12 @@ class BuildDirector(SectionLineParser):
             if idx not in self.topology.mol_idx_by_name[tokens[0]]:
                 LOGGER.warning("parsing build file: could not find molecule with name {name} and index {index}.",
                               **{"index": idx, "name": tokens[0]})
+        # indices the topology lists under another molecule name are not
+        # addressed by the directives that follow
+        other_idxs = {idx for name, idxs in self.topology.mol_idx_by_name.items()
+                      if name != tokens[0] for idx in idxs}
+        self.current_molidxs = np.array([idx for idx in self.current_molidxs
+                                         if idx not in other_idxs], dtype=int)
 
     @SectionLineParser.section_parser('molecule', 'cylinder', geom_type="cylinder")
     @SectionLineParser.section_parser('molecule', 'sphere', geom_type="sphere")
